@@ -42,17 +42,21 @@ reg('C04', engine='h_planners',
                'continued solves, stated ranking order on planner output and synthetic multisets',
     technique='runtime monitoring: cost recomputation oracle + ranking order checker under ASan+UBSan')
 reg('C20', engine='h_planners', replicas={'quick': 2, 'thorough': 4},
-    variants={'quick': ['asan', 'plain'], 'thorough': ['asan', 'plain']},
+    variants={'quick': ['asan', 'plain'], 'thorough': ['asan', 'plain', 'memcheck']},
+    variant_scale={'memcheck': 0.025},   # valgrind: one world per planner + one RNG case
     rule='one case = one fresh process that sets the global seed and then either runs one single-threaded planner on a '
          'generated world under an evaluation-count condition (fingerprint = status, every solution path byte for byte, '
          'evaluation count) or draws tables from 6 generators + samplers (fingerprint per generator); every case is executed '
          'in 2 (thorough: 4) separate processes with different environment size / allocator settings and the fingerprints '
-         'must be identical; non-trivial = planner run that produced a solution (or an RNG case)',
+         'must be identical (odd replicas run with MALLOC_PERTURB_ and one arena; variants asan and plain -O2); the thorough '
+         'tier also runs one world per planner under valgrind memcheck and keys every uninitialised-value / invalid-access '
+         'report; non-trivial = planner run that produced a solution (or an RNG case)',
     floors={'quick': {'c20_planner_runs_with_solution': 40, 'c20_fingerprints_compared': 300, 'c20_rng_cases': 4},
             'thorough': {'c20_fingerprints_compared': 1500}},
     case_timeout={'quick': 900, 'thorough': 1800},
     level_text='byte-level comparison of RNG streams and planner results across separate processes started with the same seed',
-    technique='runtime monitoring: cross-process fingerprint comparison (differential replay)')
+    technique='runtime monitoring: cross-process fingerprint comparison (differential replay) with allocator perturbation; '
+              'thorough tier adds a valgrind memcheck pass (values depending on uninitialised memory)')
 
 
 def _post_c20(run, shards, stats, fps, sanlog):
